@@ -439,3 +439,15 @@ Proof.
     + destruct (canvas_is_product_of_function_results _ _ _ _ _ _ _ E) as (a & _ & _ & Ea & _). congruence.
     + apply canvas_raises_iff in E. destruct E as [_ [A|[A|A]]]; [contradiction | congruence | congruence].
 Qed.
+
+(* the projection stage written with the two z entries of the composed matrix *)
+Lemma ortho_mat_c_as_z w h zs zt inv :
+  ortho_mat_c ROps w h zs zt inv = ortho_mat_z ROps w h zs (if inv then zs * zt else zt) inv.
+Proof. destruct inv; cbv [ortho_mat_c ortho_mat_z compose2]; mat_eq; ring. Qed.
+Lemma canvas_mat_as_z w h p t zoom inv :
+  canvas_mat ROps w h p t zoom inv =
+  canvas_mat_z ROps (ortho_zscale ROps (1 / 10) 2000 inv) (ortho_z23 ROps (1 / 10) 2000 inv) w h p t zoom inv.
+Proof.
+  unfold canvas_mat, canvas_mat_c, canvas_mat_z. rewrite ortho_mat_c_as_z.
+  destruct inv; reflexivity.
+Qed.
